@@ -120,12 +120,12 @@ Definition bare_ok (name : list byte) : bool :=      (* a name printed without |
 (* A name that looks like a number is no longer a guard matter: Symbol.needPipes matches the name against the
    reader's number patterns and puts such names between bars (repo_fixes C03-3); the pretty printer writes
    symbols inside lists as it writes them elsewhere (repo_fixes C03-4); between bars | \ and control bytes are
-   escaped (repo_fixes C03-5), so every ASCII name that gets bars is inside the guard. *)
+   escaped (repo_fixes C03-5), so every ASCII name that gets bars is inside the guard;
+   keywords get bars like other symbols (repo_fixes C03-6). *)
 Definition sym_ok (c : pcfg) (name : list byte) : bool :=
   forallb (fun b => (b <? 128)%N) name &&
   match name with
   | [] => true
-  | 58%N :: _ => negb (existsb need_pipe name) && bare_ok name
   | _ => if need_pipes name then true else bare_ok name
   end.
 
